@@ -103,6 +103,10 @@ def thresholder_consumers():
         "llr_thresholder": (lambda: run(T.LLRThresholder()), always),
         "llr_thresholder_scaled": (lambda: run(T.LLRThresholder(confidence_scaling=3.0)), always),
         "min_distance_llr": (lambda: run(T.MinDistanceThresholder(input_type=L)), always),
+        # custom reference points, symmetric about 0 (so the nearest point's sign is the LLR's sign) but listed in any order
+        "min_distance_llr_refs_pos_first": (lambda: run(T.MinDistanceThresholder(reference_points=torch.tensor([4.0, -4.0]), input_type=L)), always),
+        "min_distance_llr_refs_4_unsorted": (lambda: run(T.MinDistanceThresholder(reference_points=torch.tensor([6.0, 2.0, -2.0, -6.0]), input_type=L)), always),
+        "min_distance_llr_refs_4_mixed": (lambda: run(T.MinDistanceThresholder(reference_points=torch.tensor([-2.0, 6.0, -6.0, 2.0]), input_type=L)), always),
         "hysteresis_0.5": (lambda: run(T.HysteresisThresholder(high_threshold=0.5, low_threshold=0.5, input_type=L)), always),
         "hysteresis_default": (lambda: run(T.HysteresisThresholder(input_type=L)), lambda l, b: np.abs(l).min() >= 0.5),
         "weighted_1": (lambda: run(T.WeightedThresholder(weights=1.0, input_type=L)), always),
